@@ -19,6 +19,7 @@ import (
 	"errors"
 	"fmt"
 	"math"
+	"slices"
 	"sort"
 	"strconv"
 	"strings"
@@ -524,6 +525,9 @@ func (d *Datastore) runDeviationUpdate(ctx context.Context, dm map[string]sdcpb.
 			Priority:      0,
 			PriorityCount: math.MaxInt32,
 		}, [][]string{upd.GetPath()}, 0)
+		// the store answers with everything at or below the path (a presence container in running also brings the
+		// intents of the leaves below it): the intents of this path are those stored at exactly this path
+		intentsUpdates = updatesAtPath(intentsUpdates, upd.GetPath())
 		if len(intentsUpdates) == 0 {
 			log.Debugf("%s: has unhandled config %v: %v", d.Name(), upd.GetPath(), v)
 			// TODO: generate an unhandled config deviation
@@ -726,6 +730,17 @@ func (d *Datastore) runDeviationUpdate(ctx context.Context, dm map[string]sdcpb.
 	d.md.Lock()
 	d.currentIntentsDeviations = newDeviations
 	d.md.Unlock()
+}
+
+// updatesAtPath returns the updates that are stored at exactly the given path
+func updatesAtPath(upds []*cache.Update, path []string) []*cache.Update {
+	result := make([]*cache.Update, 0, len(upds))
+	for _, u := range upds {
+		if slices.Equal(u.GetPath(), path) {
+			result = append(result, u)
+		}
+	}
+	return result
 }
 
 // deviationPathKey is the key under which a path counts as seen in running. Key values may hold any character,
